@@ -1,6 +1,6 @@
 /-
   XotModel.Lemmas.SpanDescEnv — pieces of the C17 description invariant that do not look at the
-  tree: interning only appends (`EnvApp`) and name resolution delivers `NameFacts`; text runs
+  tree: interning only appends (`SdEnvApp`) and name resolution delivers `NameFacts`; text runs
   (`runValue`, `RunOk`, `OpenText`) under one more token; which paths are `Seen`.
 -/
 import XotModel.Lemmas.SpanDescMono
@@ -10,17 +10,17 @@ namespace XotModel
 
 /-! ### Interning -/
 
-theorem internPrefix_app (e : Env) (p : Str) : EnvApp e (e.internPrefix p).1 :=
+theorem sd_internPrefix_app (e : Env) (p : Str) : SdEnvApp e (e.internPrefix p).1 :=
   ⟨internIn_ext e.prefixes p, ⟨[], by simp [Env.internPrefix]⟩, ⟨[], by simp [Env.internPrefix]⟩⟩
 
-theorem internNamespace_app (e : Env) (u : Str) : EnvApp e (e.internNamespace u).1 :=
+theorem sd_internNamespace_app (e : Env) (u : Str) : SdEnvApp e (e.internNamespace u).1 :=
   ⟨⟨[], by simp [Env.internNamespace]⟩, internIn_ext e.namespaces u, ⟨[], by simp [Env.internNamespace]⟩⟩
 
-theorem internName_app (e : Env) (a : Str) (ns : Nat) : EnvApp e (e.internName a ns).1 :=
+theorem sd_internName_app (e : Env) (a : Str) (ns : Nat) : SdEnvApp e (e.internName a ns).1 :=
   ⟨⟨[], by simp [Env.internName]⟩, ⟨[], by simp [Env.internName]⟩, internIn_ext e.names (a, ns)⟩
 
 /-- The id `get_id_mut` returns is the index of the value in the table afterwards. -/
-theorem internIn_idx {α : Type} [BEq α] [LawfulBEq α] (l : List α) (v : α) :
+theorem sd_internIn_idx {α : Type} [BEq α] [LawfulBEq α] (l : List α) (v : α) :
     v ∈ (internIn l v).1 ∧ (internIn l v).1.idxOf v = (internIn l v).2 := by
   unfold internIn
   by_cases h : l.contains v = true
@@ -36,7 +36,7 @@ theorem internIn_idx {α : Type} [BEq α] [LawfulBEq α] (l : List α) (v : α) 
 
 theorem elementNameId_facts {env env1 : Env} {stack : NsStack} {pfx name : Str} {sp : Span} {id : Nat}
     (h : elementNameId env stack pfx name sp = .ok (env1, id)) :
-    EnvApp env env1 ∧ NameFacts env1 stack false id pfx name := by
+    SdEnvApp env env1 ∧ NameFacts env1 stack false id pfx name := by
   unfold elementNameId at h
   dsimp only at h
   split at h
@@ -46,8 +46,8 @@ theorem elementNameId_facts {env env1 : Env} {stack : NsStack} {pfx name : Str} 
     have hi := congrArg Prod.snd h
     simp only at he hi
     subst he hi
-    obtain ⟨hm, hidx⟩ := internIn_idx env.prefixes pfx
-    refine ⟨(internPrefix_app env pfx).trans (internName_app _ name ns), hm, ns, internName_get _ name ns, ?_⟩
+    obtain ⟨hm, hidx⟩ := sd_internIn_idx env.prefixes pfx
+    refine ⟨(sd_internPrefix_app env pfx).trans (sd_internName_app _ name ns), hm, ns, internName_get _ name ns, ?_⟩
     rw [if_neg (by simp)]
     show lookupPrefix stack ((internIn env.prefixes pfx).1.idxOf pfx) = some ns
     rw [hidx]; exact hns
@@ -55,8 +55,8 @@ theorem elementNameId_facts {env env1 : Env} {stack : NsStack} {pfx name : Str} 
 
 theorem attributeNameId_facts {env env1 : Env} {stack : NsStack} {pfx name : Str} {sp : Span} {id : Nat}
     (h : attributeNameId env stack pfx name sp = .ok (env1, id)) :
-    EnvApp env env1 ∧ NameFacts env1 stack true id pfx name := by
-  obtain ⟨hm, hidx⟩ := internIn_idx env.prefixes pfx
+    SdEnvApp env env1 ∧ NameFacts env1 stack true id pfx name := by
+  obtain ⟨hm, hidx⟩ := sd_internIn_idx env.prefixes pfx
   unfold attributeNameId at h
   dsimp only at h
   split at h
@@ -66,7 +66,7 @@ theorem attributeNameId_facts {env env1 : Env} {stack : NsStack} {pfx name : Str
     have hi := congrArg Prod.snd h
     simp only at he hi
     subst he hi
-    refine ⟨(internPrefix_app env pfx).trans (internName_app _ name _), hm, Env.noNamespace,
+    refine ⟨(sd_internPrefix_app env pfx).trans (sd_internName_app _ name _), hm, Env.noNamespace,
       internName_get _ name _, ?_⟩
     have : (internIn env.prefixes pfx).1.idxOf pfx = Env.emptyPrefix := by
       rw [hidx]; simpa [Env.internPrefix] using hz
@@ -81,7 +81,7 @@ theorem attributeNameId_facts {env env1 : Env} {stack : NsStack} {pfx name : Str
       have hi := congrArg Prod.snd h
       simp only at he hi
       subst he hi
-      refine ⟨(internPrefix_app env pfx).trans (internName_app _ name ns), hm, ns, internName_get _ name ns, ?_⟩
+      refine ⟨(sd_internPrefix_app env pfx).trans (sd_internName_app _ name ns), hm, ns, internName_get _ name ns, ?_⟩
       have : ¬ ((internIn env.prefixes pfx).1.idxOf pfx = Env.emptyPrefix) := by
         rw [hidx]; simpa [Env.internPrefix] using hz
       have hcond : ¬ (true = true ∧ List.idxOf pfx ((env.internPrefix pfx).1.internName name ns).1.prefixes =
